@@ -1,7 +1,7 @@
 (* C05 — executable checkers run on the implementation's observed behaviour.
    *_model_ok : the model computes what the implementation did (correspondence)
    *_prop_ok  : the implementation's own output satisfies the property's predicate (oracle) *)
-From G05 Require Export Spec.
+From G05 Require Export Spec FlagSyntax.
 
 Definition opt_eqb {A} (f : A -> A -> bool) (x y : option A) : bool :=
   match x, y with Some a, Some c => f a c | None, None => true | _, _ => false end.
@@ -88,6 +88,24 @@ Definition mkrule (a c d e : str) : rule := {| src_host := a; src_port := c; dst
 Record rcase := { rc_rules : list rule; rc_addr : str; rc_out : str }.
 Definition rcase_model_ok (c : rcase) : bool := str_eqb (dial_redirect (rc_rules c) (rc_addr c)) (rc_out c).
 Definition rcase_prop_ok (c : rcase) : bool := str_eqb (spec_redirect (rc_rules c) (rc_addr c)) (rc_out c).
+
+(* ---------- D2a: forwarder.ParseHostPortPair (the syntax of a --connect-to value) through the public API *)
+Record kcase := { k_in : str; k_out : option rule }.
+Definition rule_eqb (x y : rule) : bool :=
+  str_eqb (src_host x) (src_host y) && str_eqb (src_port x) (src_port y) &&
+  str_eqb (dst_host x) (dst_host y) && str_eqb (dst_port x) (dst_port y).
+Definition kcase_model_ok (c : kcase) : bool := opt_eqb rule_eqb (parse_pair (k_in c)) (k_out c).
+(* an accepted value means what it spells: without its brackets it is the four fields joined by colons, the
+   ports are port numbers (or absent), the hosts carry no bracket *)
+Definition kcase_prop_ok (c : kcase) : bool :=
+  match k_out c with
+  | None => true
+  | Some r =>
+      str_eqb (strip_brackets (k_in c))
+              (src_host r ++ [58] ++ src_port r ++ [58] ++ dst_host r ++ [58] ++ dst_port r) &&
+      port_valid (src_port r) && port_valid (dst_port r) &&
+      negb (has_byte 91 (src_host r) || has_byte 93 (src_host r) || has_byte 91 (dst_host r) || has_byte 93 (dst_host r))
+  end.
 
 (* ---------- D2b: forwarder.Dialer.DialContext itself (real NewDialer with the real redirect; only the socket
    function is scripted): rules, Retry.Attempts (any integer), the answers of the socket layer to the successive
